@@ -13,7 +13,7 @@ RULE = (
     "a case is an http/https URL built from (scheme spelling, optional userinfo, host from {names, upper-case, trailing dot, "
     "IDN, A-label, IPv4, [IPv6], [IPv6%25zone]}, port {absent, explicit default, odd, leading zeros}, path with dot segments / "
     "escapes / spaces / non-ASCII / backslash, query, fragment) sent with PoolManager directly, through a forwarding proxy, and "
-    "through a CONNECT tunnel (http and https proxies), optionally reached through a redirect, optionally after the same manager (with manager-level headers, a header mapping the caller reuses, or proxy_headers and an earlier CONNECT tunnel) has served another origin, each together with an EQUIVALENT spelling (scheme/host letter case flipped, explicit default "
+    "through a CONNECT tunnel (http and https proxies), optionally reached through a redirect, optionally after the same manager (with manager-level headers or a header mapping the caller reuses - plain dict or HTTPHeaderDict -, or proxy_headers and an earlier CONNECT tunnel) has served another origin, each together with an EQUIVALENT spelling (scheme/host letter case flipped, explicit default "
     "port added or removed). The URL string is read by the independent RFC 3986 splitter (vlib/refurl.py) and compared with "
     "what the socket layer and the servers saw: address dialled, CONNECT line, TLS server name, Host header (strict "
     "grammar), request target. Non-trivial = host is IPv6 / IDN / has a trailing dot or zone, or the URL has userinfo / a "
@@ -40,7 +40,7 @@ HOST_HDR_RE = re.compile(r"^(\[[0-9A-Fa-f:.]+(%(25)?[A-Za-z0-9._~-]+)?\]|[A-Za-z
 TARGET_OK = refurl.QUERY_OK
 
 
-PRIORS = (None, "mgr-headers", "shared-dict", "proxy-headers-tunnel")
+PRIORS = (None, "mgr-headers", "shared-dict", "proxy-headers-tunnel", "mgr-headers-hd", "shared-hd")
 
 
 def _scale(n):
@@ -296,8 +296,10 @@ def run_case(case) -> list[Failure]:
     if (exp2["dial"], exp2["sni"], exp2["port"], exp2["path"], exp2["query"]) != (exp["dial"], exp["sni"], exp["port"], exp["path"], exp["query"]):
         raise core.HarnessError(f"variant is not equivalent under the reference reading: {url!r} vs {url2!r}")
     prior = case.get("prior")
-    shared = {"X-App": "verif"} if prior == "shared-dict" else None
-    mkw = {"headers": {"X-App": "verif"}} if prior == "mgr-headers" else {}
+    from urllib3._collections import HTTPHeaderDict
+
+    shared = {"X-App": "verif"} if prior == "shared-dict" else (HTTPHeaderDict({"X-App": "verif"}) if prior == "shared-hd" else None)
+    mkw = {"headers": {"X-App": "verif"}} if prior == "mgr-headers" else ({"headers": HTTPHeaderDict({"X-App": "verif"})} if prior == "mgr-headers-hd" else {})
     if prior == "proxy-headers-tunnel":
         if route == "direct":
             raise core.InvalidCase
@@ -402,7 +404,7 @@ def enum_cases(tier):
                 yield dict(_mk(scheme, None, host, port, PATHS[k % len(PATHS)], QUERIES[k % len(QUERIES)], None, route), via_redirect=True, rpol=core.pick(k, 1, ("default", "rm-empty", "int")))
             if port in (None, "8080") and scheme in ("http", "https"):
                 # the manager (with manager-level headers, or a header mapping the caller reuses) has just served another origin
-                yield dict(_mk(scheme, None, host, port, PATHS[k % len(PATHS)], QUERIES[k % len(QUERIES)], None, route), prior=(core.pick(k, 2, ("mgr-headers", "shared-dict", "proxy-headers-tunnel")) if route != "direct" else core.pick(k, 2, ("mgr-headers", "shared-dict"))), via_redirect=core.pick(k, 3, (True, False, False)) and build_url({"scheme": scheme, "host": host, "path": PATHS[k % len(PATHS)], "query": QUERIES[k % len(QUERIES)]}).isascii())
+                yield dict(_mk(scheme, None, host, port, PATHS[k % len(PATHS)], QUERIES[k % len(QUERIES)], None, route), prior=(core.pick(k, 2, ("mgr-headers", "shared-dict", "proxy-headers-tunnel", "mgr-headers-hd", "shared-hd")) if route != "direct" else core.pick(k, 2, ("mgr-headers", "shared-dict", "mgr-headers-hd", "shared-hd"))), via_redirect=core.pick(k, 3, (True, False, False)) and build_url({"scheme": scheme, "host": host, "path": PATHS[k % len(PATHS)], "query": QUERIES[k % len(QUERIES)]}).isascii())
     for path, query, frag, ui in itertools.product(PATHS, QUERIES, FRAGS, USERINFO):
         k += 1
         if tier == "quick" and k % 3:
@@ -424,7 +426,7 @@ def _hyp():
 
     return st.builds(mk, st.sampled_from(SCHEMES), st.sampled_from(USERINFO), st.sampled_from(HOSTS), st.sampled_from(PORTS),
                      st.one_of(st.sampled_from(PATHS), st.lists(st.sampled_from(["a", "b c", "..", ".", "", "%41", "é", "x;y", "a\\b", "~", "%zz"]), min_size=1, max_size=5).map(lambda l: "/" + "/".join(l))),
-                     st.sampled_from(QUERIES), st.sampled_from(FRAGS), st.integers(0, 2), st.sampled_from([None, None, "mgr-headers", "shared-dict", "proxy-headers-tunnel"]), st.sampled_from([None, None, None, "default", "rm-empty", "int"]))
+                     st.sampled_from(QUERIES), st.sampled_from(FRAGS), st.integers(0, 2), st.sampled_from([None, None, "mgr-headers", "shared-dict", "proxy-headers-tunnel", "mgr-headers-hd", "shared-hd"]), st.sampled_from([None, None, None, "default", "rm-empty", "int"]))
 
 
 def shards(tier, seed):
